@@ -4,7 +4,7 @@
 //! in-memory source whose payload is its own source coordinate, `convert_tiles_container` into every
 //! container format (output re-opened with the real readers), the option handling of `versatiles
 //! convert` (in-process transcription of `get_bbox_pyramid`, tied to the real binary by running
-//! `$VTH_BIN convert` with the same flags), thorough tier: `versatiles serve --flip-y --swap-xy`.
+//! `$VTH_BIN convert` with the same flags), `versatiles serve --flip-y --swap-xy` with three tile sources over raw HTTP (both tiers).
 //!
 //! case lines (stream `C06`, coordinates are `x,y,z`, pyramids 32 boxes `z:x0,y0,x1,y1` joined by `/`):
 //!   C06 pyr <minz|-> <maxz|-> <w,s,e,n as f64 bit patterns|-> <border|->  → none | pyramid | err | panic
@@ -12,6 +12,7 @@
 //!   C06 look <fs> <tiles> <x,y,z>                                          → none | <source coord> | err | panic
 //!   C06 stream <fs> <tiles> <box>                                          → sorted `out=src;…` | - | panic
 //!   C06 walk <fs> <req|-> <srccover> <tiles>                               → <cover>|<sorted tiles>
+//!   C06 serve <fs> <tilesA> <tilesB>   (oracle only) `versatiles serve <flags> [a1]A [b]B [a2]A` vs `versatiles convert <flags>`
 //! `fs` = flip,swap as two bits ("10" = flip only).
 use crate::common::*;
 use crate::memsrc::MemSource;
@@ -1114,7 +1115,7 @@ fn http_get(port: u16, path: &str) -> Option<(u16, Vec<u8>)> {
 	}
 	Some((status, body))
 }
-fn start_server(bin: &Path, src: &str, f: bool, s: bool) -> Option<Server> {
+fn start_server(bin: &Path, srcs: &[(String, String)], f: bool, s: bool) -> Option<Server> {
 	for _ in 0..5 {
 		let port = free_port();
 		let mut a: Vec<String> = vec!["serve".into(), "-i".into(), "127.0.0.1".into(), "-p".into(), port.to_string(), "--disable-api".into()];
@@ -1124,7 +1125,9 @@ fn start_server(bin: &Path, src: &str, f: bool, s: bool) -> Option<Server> {
 		if s {
 			a.push("--swap-xy".into());
 		}
-		a.push(format!("[src]{src}"));
+		for (id, path) in srcs {
+			a.push(format!("[{id}]{path}"));
+		}
 		let child = Command::new(bin).args(&a).stdin(Stdio::null()).stdout(Stdio::null()).stderr(Stdio::null()).spawn().ok()?;
 		let mut srv = Server { child, port };
 		for _ in 0..100 {
@@ -1140,30 +1143,28 @@ fn start_server(bin: &Path, src: &str, f: bool, s: bool) -> Option<Server> {
 	None
 }
 
-/// `versatiles serve --flip-y --swap-xy` exposes the same coordinate mapping as `versatiles convert`
-fn serve_cases(out: &mut Out, ctx: &mut Ctx, rng: &mut Rng, n: usize) {
-	let Some(bin) = vth_bin() else {
-		out.notes.push("VTH_BIN not available: serve-vs-convert skipped".into());
-		return;
-	};
+/// `versatiles serve --flip-y --swap-xy` exposes the same coordinate mapping as `versatiles convert`,
+/// for EVERY tile source of the server: container A is served under two ids (first and last
+/// position), container B (a different tile set) in between; each id's answers are compared with
+/// `versatiles convert <flags>` of the same container.   case line: `C06 serve <fs> <tilesA> <tilesB>`
+fn serve_one(out: &mut Out, ctx: &mut Ctx, bin: &Path, f: bool, s: bool, tiles_a: &[C], tiles_b: &[C]) {
 	let dec = |b: Blob, comp: TileCompression| match decompress(b, &comp) {
 		Ok(d) => String::from_utf8_lossy(d.as_slice()).to_string(),
 		Err(_) => "undecodable".to_string(),
 	};
-	for i in 0..n {
-		let (f, s) = (i & 1 == 1, i & 2 == 2);
-		let mut tiles: Vec<C> = gen_tiles(rng).into_iter().filter(|c| c.2 <= 20).collect();
-		if tiles.is_empty() {
-			tiles.push((1, 2, 3));
-		}
+	let line = format!("C06 serve {} {} {}", fs_str(f, s), tiles_str(tiles_a), tiles_str(tiles_b));
+	let mut e: Option<String> = None;
+	let mut which = "";
+	let mut paths = vec![];
+	let mut convs: Vec<BTreeMap<C, String>> = vec![];
+	for tiles in [tiles_a, tiles_b] {
 		let mut cover = TileBBoxPyramid::new_empty();
-		for c in &tiles {
+		for c in tiles {
 			cover.include_coord(&TileCoord3::new(c.0, c.1, c.2).unwrap());
 		}
-		let sc = Scen { tiles: tiles.clone(), cover, f, s, req: None, src_comp: TileCompression::Uncompressed, dst_comp: None, format: TileFormat::JSON };
+		let sc = Scen { tiles: tiles.to_vec(), cover, f, s, req: None, src_comp: TileCompression::Uncompressed, dst_comp: None, format: TileFormat::JSON };
 		let src_path = target_path(ctx, "versatiles");
 		ctx.rt.block_on(convert_tiles_container(sc.source().boxed(), TilesConverterParameters::new_default(), &src_path)).unwrap();
-		// convert with the binary
 		let dst = target_path(ctx, "tar");
 		let mut a: Vec<String> = vec!["convert".into()];
 		if f {
@@ -1174,55 +1175,86 @@ fn serve_cases(out: &mut Out, ctx: &mut Ctx, rng: &mut Rng, n: usize) {
 		}
 		a.push(src_path.clone());
 		a.push(dst.clone());
-		let (code, stderr) = run_bin(&bin, &a);
-		let line = format!("serve-vs-convert {} {}", fs_str(f, s), tiles_str(&tiles));
-		let mut e: Option<String> = None;
-		if code != Some(0) {
+		let (code, stderr) = run_bin(bin, &a);
+		if code != Some(0) && e.is_none() {
 			e = Some(format!("versatiles convert failed: {}", trunc(&stderr, 200)));
-		} else {
-			let conv: BTreeMap<C, String> = match catch(|| read_all(ctx, &dst, &dec)) {
-				Ok(Ok((_, items, _))) => items.into_iter().collect(),
-				_ => BTreeMap::new(),
-			};
-			match start_server(&bin, &src_path, f, s) {
-				None => out.notes.push("could not start versatiles serve (infrastructure); case skipped".into()),
-				Some(srv) => {
-					let mut probes: BTreeSet<C> = conv.keys().cloned().collect();
-					for t in &tiles {
-						probes.insert(*t);
-						probes.insert(t_fwd(f, s, *t));
-						probes.insert(t_fwd(f, false, t_fwd(false, s, *t))); // image under the wrong order (swap, then flip)
+		}
+		let conv: BTreeMap<C, String> = match catch(|| read_all(ctx, &dst, &dec)) {
+			Ok(Ok((_, items, _))) => items.into_iter().collect(),
+			_ => BTreeMap::new(),
+		};
+		// the conversion itself must be the property's mapping
+		let want: BTreeMap<C, String> = tiles.iter().map(|t| (t_fwd(f, s, *t), String::from_utf8(payload(t)).unwrap())).collect();
+		if conv != want && e.is_none() {
+			e = Some("versatiles convert output is not the T-image of the source".into());
+			which = "convert";
+		}
+		cleanup(&dst);
+		paths.push(src_path);
+		convs.push(conv);
+	}
+	let served: Vec<(String, String)> = vec![("a1".into(), paths[0].clone()), ("b".into(), paths[1].clone()), ("a2".into(), paths[0].clone())];
+	match start_server(bin, &served, f, s) {
+		None => out.notes.push("could not start versatiles serve (infrastructure); case skipped".into()),
+		Some(srv) => {
+			for (pos, (id, tiles, conv)) in [("a1", tiles_a, &convs[0]), ("b", tiles_b, &convs[1]), ("a2", tiles_a, &convs[0])].into_iter().enumerate() {
+				let mut probes: BTreeSet<C> = conv.keys().take(8).cloned().collect();
+				for t in tiles.iter().take(5) {
+					probes.insert(*t);
+					probes.insert(t_fwd(f, s, *t));
+					probes.insert(t_fwd(f, false, t_fwd(false, s, *t))); // image under the wrong order (swap, then flip)
+				}
+				for c in probes.iter().take(20) {
+					let m = (1u64 << c.2) - 1;
+					if c.0 as u64 > m || c.1 as u64 > m {
+						continue;
 					}
-					for c in probes.iter().take(60) {
-						let m = (1u64 << c.2) - 1;
-						if c.0 as u64 > m || c.1 as u64 > m {
-							continue;
-						}
-						let got = http_get(srv.port, &format!("/tiles/src/{}/{}/{}", c.2, c.0, c.1));
-						let want = conv.get(c);
-						let ok = match (&got, want) {
-							(Some((200, body)), Some(p)) => String::from_utf8_lossy(body) == *p,
-							(Some((404, _)), None) => true,
-							_ => false,
-						};
-						if !ok && e.is_none() {
-							e = Some(format!("GET /tiles/src/{}/{}/{} → {:?}, converted container has {:?} there", c.2, c.0, c.1, got.map(|(st, b)| (st, String::from_utf8_lossy(&b).to_string())), want));
-						}
-						out.count("serve_requests");
+					let url = format!("/tiles/{id}/{}/{}/{}", c.2, c.0, c.1);
+					let got = http_get(srv.port, &url);
+					let want = conv.get(c);
+					let ok = match (&got, want) {
+						(Some((200, body)), Some(p)) => String::from_utf8_lossy(body) == *p,
+						(Some((404, _)), None) => true,
+						_ => false,
+					};
+					if !ok && e.is_none() {
+						e = Some(format!("tile source #{} of the server: GET {url} → {:?}, `versatiles convert` with the same flags has {:?} there", pos + 1, got.map(|(st, b)| (st, String::from_utf8_lossy(&b).to_string())), want));
+						which = if pos == 0 { "first_source" } else { "later_source" };
 					}
-					drop(srv);
+					out.count("serve_requests");
 				}
 			}
-			// and both must be the property's mapping
-			let want: BTreeMap<C, String> = tiles.iter().map(|t| (t_fwd(f, s, *t), String::from_utf8(payload(t)).unwrap())).collect();
-			if conv != want && e.is_none() {
-				e = Some("versatiles convert output is not the T-image of the source".into());
-			}
+			drop(srv);
 		}
-		out.eval(&line, f || s);
-		out.oracle(e.is_none(), &format!("C06 serve-vs-convert: {}", e.clone().unwrap_or_default()), json!({"kind": "serve_vs_convert", "flip": f, "swap": s}), json!({"case": line}));
-		cleanup(&src_path);
-		cleanup(&dst);
+	}
+	out.eval(&line, f || s);
+	out.count("serve_cases");
+	out.oracle(e.is_none(), &format!("C06 serve-vs-convert: {}", e.clone().unwrap_or_default()), json!({"kind": "serve_vs_convert", "flip": f, "swap": s, "where": which}), json!({"case": line}));
+	for p in paths {
+		cleanup(&p);
+	}
+}
+
+fn serve_cases(out: &mut Out, ctx: &mut Ctx, rng: &mut Rng, n: usize) {
+	let Some(bin) = vth_bin() else {
+		out.notes.push("VTH_BIN not available: serve-vs-convert skipped".into());
+		return;
+	};
+	for i in 0..n {
+		// quick tier: 11, 10, 01, 11 …; the flag-less server only every 8th case
+		let (f, s) = match i % 8 {
+			7 => (false, false),
+			k => [(true, true), (true, false), (false, true)][k % 3],
+		};
+		let gen = |rng: &mut Rng| {
+			let mut t: Vec<C> = gen_tiles(rng).into_iter().filter(|c| c.2 <= 20).collect();
+			if t.is_empty() {
+				t.push((1, 2, 3));
+			}
+			t
+		};
+		let (ta, tb) = (gen(rng), gen(rng));
+		serve_one(out, ctx, &bin, f, s, &ta, &tb);
 	}
 }
 
@@ -1282,6 +1314,12 @@ fn replay_line(out: &mut Out, ctx: &mut Ctx, line: &str) {
 			let sc = mk(f, s, None, cover_of(&tiles), tiles);
 			if t[4] != "-" {
 				do_stream(out, ctx, &sc, &parse_box(t[4]));
+			}
+		}
+		"serve" if t.len() == 5 => {
+			if let Some(bin) = vth_bin() {
+				let (f, s) = flags(t[2]);
+				serve_one(out, ctx, &bin, f, s, &parse_tiles(t[3]), &parse_tiles(t[4]));
 			}
 		}
 		"walk" if t.len() == 6 => {
